@@ -291,6 +291,10 @@ def check(pid, tier, runs=None, workers=None, quiet=False):
             if kind == 'result-depends-on-hash-seed':
                 print(f'  oracle=divergence run={idx}: per-operation results differ between PYTHONHASHSEED '
                       f'{doc["hashseeds"][0]} and {doc["hashseeds"][1]}')
+            elif kind == 'result-nondeterministic-under-identical-conditions':
+                print(f'  oracle=divergence run={idx}: the same run history under the same hash seed gave different '
+                      f'per-operation results in {doc["executions"]} fresh interpreters (results depend on something '
+                      f'other than the arguments, e.g. object identities); replay re-executes it up to six times')
             else:
                 print(f'  oracle=divergence run={idx}: per-operation results depend on which earlier runs were executed '
                       f'in the same process (state kept between calls): after {doc["histories"][0][:-1]} vs after '
@@ -343,12 +347,23 @@ def check(pid, tier, runs=None, workers=None, quiet=False):
                         'runs in the same process (state kept between calls) - the replay file holds that run sequence')
             else:
                 wr = worker_replay(pid, tier, seed, ex['run'], workers, v.sig, timeout)
+                if wr is None and getattr(prop, 'HASHSEED_IS_VIOLATION', False):
+                    hist = list(range(ex['run'] % workers, ex['run'] + 1, workers))
+                    nd = nondeterminism_probe(pid, tier, seed, hist)
+                    if nd is not None:
+                        d_ = os.path.join(env.VERIF_DIR, 'replays')
+                        wr = os.path.join(d_, f'{pid}-{seed}-{ex["run"]}-divergence.json')
+                        with open(wr, 'w') as fh:
+                            json.dump({'property': pid, 'seed': seed, 'tier': tier, 'run': ex['run'],
+                                       'signature': 'divergence:result-nondeterministic-under-identical-conditions',
+                                       'divergence': nd, 'observed': v2.to_json(), 'penman_tree': env.tree_hash()},
+                                      fh, indent=1, default=str)
                 if wr is not None:
                     path = wr
                     ok = True
-                    note = ('  note: reproduces only when the original worker process is re-executed from its first run '
-                            '(the behaviour depends on process-level state such as object identities) - the replay file '
-                            'names that worker invocation')
+                    note = ('  note: reproduces only when the original worker process is re-executed from its first run, '
+                            'possibly at another run of that range (the behaviour depends on process-level state the '
+                            'simulator cannot pin, such as object identities) - the replay file names that worker invocation')
         if not ok:
             unreproducible.append(f'minimised trace {path} (oracle={v2.oracle} class={v2.cls}, run {ex["run"]}) did not '
                                   f'reproduce in a fresh interpreter: {msg[:300]}')
@@ -500,10 +515,23 @@ def _worker_once(pid, tier, seed, start, stop, step, timeout):
         shutil.rmtree(scratch, ignore_errors=True)
 
 
+def _worker_hits(pid, tier, seed, start, stop, step, timeout, sig, attempts=3):
+    """Re-execute a worker's run range up to *attempts* times; runs that violated with *sig*."""
+    for k in range(attempts):
+        r = _worker_once(pid, tier, seed, start, stop, step, timeout)
+        hits = sorted(int(i) for i, sigs in ((r or {}).get('viol_runs') or {}).items() if sig in sigs)
+        if hits:
+            return hits, k + 1
+    return [], attempts
+
+
 def worker_replay(pid, tier, seed, run, workers, sig, timeout):
+    """Last resort for behaviour that depends on process-level state the simulator cannot pin (object
+    identities, allocator reuse): the worker's whole run range is re-executed; the violation counts as
+    reproduced if the same oracle fires again somewhere in that range."""
     start, step = run % workers, workers
-    r = _worker_once(pid, tier, seed, start, run + 1, step, timeout)
-    if r is None or sig not in (r.get('viol_runs') or {}).get(str(run), []):
+    hits, tries = _worker_hits(pid, tier, seed, start, run + 1, step, timeout, sig)
+    if not hits:
         return None
     d = os.path.join(env.VERIF_DIR, 'replays')
     os.makedirs(d, exist_ok=True)
@@ -511,6 +539,7 @@ def worker_replay(pid, tier, seed, run, workers, sig, timeout):
     with open(path, 'w') as fh:
         json.dump({'property': pid, 'seed': seed, 'tier': tier, 'signature': sig, 'run': run,
                    'worker': {'start': start, 'stop': run + 1, 'step': step, 'timeout': timeout},
+                   'reproduced_in_runs': hits, 'attempts_needed': tries,
                    'penman_tree': env.tree_hash()}, fh, indent=1)
     return path
 
@@ -539,10 +568,10 @@ def replay(path):
     if 'worker' in doc:
         w = doc['worker']
         print(f'vsim replay: property={pid} re-executing worker runs {w["start"]}..{w["stop"] - 1} step {w["step"]}')
-        r = _worker_once(pid, doc['tier'], doc['seed'], w['start'], w['stop'], w['step'], w.get('timeout', 1200))
-        sigs = (r or {}).get('viol_runs', {}).get(str(doc['run']), [])
-        if doc.get('signature') in sigs:
-            print(f'  violation {doc.get("signature")} in run {doc["run"]}')
+        hits, tries = _worker_hits(pid, doc['tier'], doc['seed'], w['start'], w['stop'], w['step'],
+                                   w.get('timeout', 1200), doc.get('signature'))
+        if hits:
+            print(f'  violation {doc.get("signature")} in runs {hits} (attempt {tries})')
             print(f'VIOLATION property={pid} replay={path}')
             return 1
         print('replay: the recorded violation did not occur on this tree')
@@ -615,12 +644,81 @@ def classify_divergence(pid, tier, seed, idx, hs, workers, rstart, rstep):
     if pa is not None and pb2 is not None and pa != pb2:
         return 'result-depends-on-call-history', {'histories': [hp, hr], 'hashseeds': [0, hs],
                                                   'first_difference': _first_diff(pa, pb2)}
+    nd = nondeterminism_probe(pid, tier, seed, hp, first=pa)
+    if nd is None:
+        nd = worker_nondeterminism_probe(pid, tier, seed, idx % workers, idx + 1, workers, 1200)
+    if nd is not None:
+        nd.setdefault('executions', 2)
+        nd.setdefault('first_difference', f"run {nd.get('run_with_different_results')} of the re-executed worker")
+        return 'result-nondeterministic-under-identical-conditions', nd
     return None, {}
+
+
+def worker_nondeterminism_probe(pid, tier, seed, start, stop, step, timeout, repeats=4):
+    """Re-execute one worker's run range several times under identical conditions (same command, same
+    hash seed) and compare the per-run result digests between executions."""
+    seen = {}
+    for k in range(repeats):
+        scratch = tempfile.mkdtemp(prefix='vsim-nd-')
+        try:
+            j = Job('nd', 0, start, stop, step, True)
+            _spawn(j, pid, tier, seed, scratch, timeout)
+            try:
+                j.proc.wait(timeout=timeout + 60)
+            except subprocess.TimeoutExpired:
+                j.proc.kill()
+                return None
+            if j.proc.returncode != 0 or not os.path.exists(j.out):
+                return None
+            with open(j.out) as fh:
+                r = json.load(fh)
+        finally:
+            shutil.rmtree(scratch, ignore_errors=True)
+        for idx, dec, ev, nv in r['runs']:
+            if idx in seen and seen[idx] != ev:
+                return {'worker': {'start': start, 'stop': stop, 'step': step, 'timeout': timeout},
+                        'run_with_different_results': idx, 'executions': k + 1}
+            seen.setdefault(idx, ev)
+    return None
+
+
+def nondeterminism_probe(pid, tier, seed, history, first=None, repeats=3):
+    """The same run history, the same hash seed, fresh interpreters: do the results differ between
+    executions?  The plan of every run is a pure function of (seed, index) - the self-test and the
+    decision digests establish that - so a difference here is nondeterminism of the code under test."""
+    outs = [first] if first is not None else []
+    while len(outs) < repeats + (1 if first is not None else 0):
+        o = _events_in_fresh(pid, tier, seed, history, 0)
+        if o is None:
+            return None
+        outs.append(o)
+        if o != outs[0]:
+            return {'history': history, 'hashseed': 0, 'executions': len(outs),
+                    'first_difference': _first_diff(outs[0], o)}
+    return None
 
 
 def replay_divergence(doc):
     pid, tier, seed, idx = doc['property'], doc['tier'], doc['seed'], doc['run']
     d = doc['divergence']
+    if 'worker' in d:
+        w = d['worker']
+        nd = worker_nondeterminism_probe(pid, tier, seed, w['start'], w['stop'], w['step'], w.get('timeout', 1200),
+                                         repeats=6)
+        if nd is not None:
+            print(f"  run {nd['run_with_different_results']} gave different results in execution {nd['executions']}")
+            print(f'VIOLATION property={pid} replay=(nondeterminism of worker {w["start"]}..{w["stop"] - 1} step {w["step"]})')
+            return 1
+        print('replay: six executions of the worker gave identical results on this tree')
+        return 0
+    if 'history' in d:
+        nd = nondeterminism_probe(pid, tier, seed, d['history'], repeats=5)
+        if nd is not None:
+            print('  first differing event: ' + nd['first_difference'])
+            print(f'VIOLATION property={pid} replay=(nondeterminism of history ending in run {idx})')
+            return 1
+        print('replay: six executions of the history gave identical results on this tree')
+        return 0
     if 'histories' in d:
         hs = d.get('hashseeds', [0, 0])
         a = _events_in_fresh(pid, tier, seed, d['histories'][0], hs[0])
